@@ -209,9 +209,9 @@ func genHostileIetfPatch(t *rapid.T) map[string]interface{} {
 				return p
 			}
 		}
-		if (kind == "move" || kind == "copy") && rapid.IntRange(0, 2).Draw(t, "intoOwnSource") == 0 {
+		if (kind == "move" || kind == "copy") && rapid.IntRange(0, 1).Draw(t, "intoOwnSource") == 0 {
 			// a pointer into its own source: 'from' names a container (in any spelling of its indices), 'path' a location inside it
-			c := rapid.SampledFrom([]string{"/arr/2", "/o/y", "/o", "/arr", "/alsoKnownAs", ""}).Draw(t, "container")
+			c := rapid.SampledFrom([]string{"/arr/2", "/arr/2", "/arr/2", "/o/y", "/o", "/arr", "/alsoKnownAs", ""}).Draw(t, "container")
 			op["from"] = respellIndices(t, c, "selfFrom")
 			op["path"] = c + "/" + rapid.SampledFrom([]string{"new", "0", "-", "in", "y", "1", "y/0"}).Draw(t, "child")
 			ops = append(ops, op)
